@@ -300,7 +300,9 @@ func genC02(t *rapid.T) c02Case {
 			m = c.Entries[rapid.IntRange(0, len(c.Entries)-1).Draw(t, "for-entry")].Model
 		}
 		genClientFields(t, &q, m)
-		if m != nil && chance(t, "near", 2) {
+		if m != nil && len(m.Deny) > 0 && chance(t, "deny-variant-host", 2) {
+			q.Hostname = strings.ToLower(hostVariant(t, "deny-variant", pick(t, "deny-of", m.Deny)))
+		} else if m != nil && chance(t, "near", 2) {
 			q2 := repairQ(t, q, *m)
 			if q2.Host {
 				q = q2
